@@ -1,5 +1,6 @@
 import os
 import gzip
+import signal
 import logging
 import pysyncobj.pickle as pickle
 
@@ -194,6 +195,15 @@ class Serializer(object):
         if isLast:
             self.__incomingTransmissionFile.close()
             self.__incomingTransmissionFile = None
+            if self.__pid > 0:
+                # A dump of our own that a forked child is still writing is older than the
+                # snapshot being installed; it must not be renamed over it afterwards.
+                try:
+                    os.kill(self.__pid, signal.SIGKILL)
+                    os.waitpid(self.__pid, 0)
+                except OSError:
+                    pass
+                self.__pid = 0
             try:
                 atomicReplace(tmpFile, self.__fileName)
             except:
